@@ -1,8 +1,373 @@
 package c09
 
-import "math/rand"
+import (
+	"fmt"
+	"math/rand"
+	"reflect"
+	"strings"
+	"sync"
+
+	"github.com/samsarahq/thunder/graphql"
+	"github.com/samsarahq/thunder/graphql/introspection"
+	"github.com/samsarahq/thunder/graphql/schemabuilder"
+)
+
+// Generator B: real schemabuilder services. Three service templates (users,
+// profiles, admins) share an enum (bKind), an input object (Filter), the
+// federated objects User / Admin and a union; a version of a service is the
+// template built with a feature bitmask that decides which field funcs are
+// registered, which argument structs they take, which values the enum map
+// has, which members the union has and whether results are pointers
+// (nullable) or values (non-null). Introspection JSON comes from
+// introspection.ComputeSchemaJSON and the per-version schema used for
+// PrepareQuery is the real built schema with its real argument parsers.
+
+type bKind int32
+
+type BUser struct {
+	Id   int64
+	Name string
+}
+
+type bProfileUser struct {
+	Id int64
+}
+
+type bUserKey struct {
+	Id int64
+}
+
+type BAdmin struct {
+	Id    int64
+	Level int64
+}
+
+type bAdminKey struct {
+	Id int64
+}
+
+type BGuest struct {
+	Token string
+}
+
+// Filter variants: distinct Go types that all carry the GraphQL name
+// "Filter_InputObject" (what a shared library type looks like at different
+// versions).
+var filterTypes = func() map[string]reflect.Type {
+	m := map[string]reflect.Type{}
+	func() {
+		type Filter struct {
+			Prefix string
+			Limit  *int64
+		}
+		m["base"] = reflect.TypeOf(Filter{})
+	}()
+	func() {
+		type Filter struct {
+			Prefix string
+			Limit  *int64
+			Deep   *bool
+		}
+		m["deep"] = reflect.TypeOf(Filter{})
+	}()
+	func() {
+		type Filter struct {
+			Prefix string
+			Limit  int64
+		}
+		m["limitRequired"] = reflect.TypeOf(Filter{})
+	}()
+	func() {
+		type Filter struct {
+			Prefix string
+			Limit  int64
+			Deep   *bool
+		}
+		m["deepLimitRequired"] = reflect.TypeOf(Filter{})
+	}()
+	return m
+}()
+
+// union variants, both named "Everyone"
+var everyoneTypes = func() map[bool]reflect.Type {
+	m := map[bool]reflect.Type{}
+	func() {
+		type Everyone struct {
+			schemabuilder.Union
+			*BUser
+			*BGuest
+		}
+		m[false] = reflect.TypeOf(Everyone{})
+	}()
+	func() {
+		type Everyone struct {
+			schemabuilder.Union
+			*BUser
+			*BGuest
+			*BAdmin
+		}
+		m[true] = reflect.TypeOf(Everyone{})
+	}()
+	return m
+}()
+
+type bArg struct {
+	Name string // exported Go field name; GraphQL name is lower-camel
+	Type reflect.Type
+}
+
+// dynFunc builds a field func value of type func([src][, args struct]) ret.
+// The functions are never executed (the fabricating clients answer queries).
+func dynFunc(src reflect.Type, args []bArg, ret reflect.Type) interface{} {
+	var in []reflect.Type
+	if src != nil {
+		in = append(in, src)
+	}
+	if len(args) > 0 {
+		var fs []reflect.StructField
+		for _, a := range args {
+			fs = append(fs, reflect.StructField{Name: a.Name, Type: a.Type})
+		}
+		in = append(in, reflect.StructOf(fs))
+	}
+	ft := reflect.FuncOf(in, []reflect.Type{ret}, false)
+	return reflect.MakeFunc(ft, func([]reflect.Value) []reflect.Value {
+		return []reflect.Value{reflect.Zero(ret)}
+	}).Interface()
+}
+
+var (
+	tInt64     = reflect.TypeOf(int64(0))
+	tString    = reflect.TypeOf("")
+	tBool      = reflect.TypeOf(false)
+	tKind      = reflect.TypeOf(bKind(0))
+	tUserPtr   = reflect.TypeOf(&BUser{})
+	tPUserPtr  = reflect.TypeOf(&bProfileUser{})
+	tAdminPtr  = reflect.TypeOf(&BAdmin{})
+	tFloat64   = reflect.TypeOf(float64(0))
+	bTemplates = []string{"users", "profiles", "admins"}
+)
+
+func bit(mask uint, i uint) bool { return mask&(1<<i) != 0 }
+
+func kindMap(values ...string) map[string]bKind {
+	all := map[string]bKind{"A": 0, "B": 1, "C": 2, "D": 3}
+	m := map[string]bKind{}
+	for _, v := range values {
+		m[v] = all[v]
+	}
+	return m
+}
+
+func filterVariant(deep, limitRequired bool) reflect.Type {
+	switch {
+	case deep && limitRequired:
+		return filterTypes["deepLimitRequired"]
+	case deep:
+		return filterTypes["deep"]
+	case limitRequired:
+		return filterTypes["limitRequired"]
+	}
+	return filterTypes["base"]
+}
+
+// buildB builds one version of a template under a service name.
+func buildB(template, svcName string, mask uint) *schemabuilder.Schema {
+	s := schemabuilder.NewSchemaWithName(svcName)
+	q := s.Query()
+	mut := s.Mutation()
+	switch template {
+	case "users":
+		vals := []string{"A"}
+		if !bit(mask, 9) {
+			vals = append(vals, "B")
+		}
+		if bit(mask, 2) {
+			vals = append(vals, "C")
+		}
+		s.Enum(bKind(0), kindMap(vals...))
+		user := s.Object("User", BUser{}, schemabuilder.FetchObjectFromKeys(func(args struct{ Keys []bUserKey }) []*BUser { return nil }))
+		user.Key("id")
+		s.Object("Guest", BGuest{})
+		s.Object("Admin", BAdmin{}, schemabuilder.FetchObjectFromKeys(func(args struct{ Keys []bAdminKey }) []*BAdmin { return nil })).Key("id")
+
+		uargs := []bArg{{"Id", tInt64}}
+		if bit(mask, 0) {
+			uargs = append(uargs, bArg{"Verbose", reflect.PtrTo(tBool)})
+		}
+		q.FieldFunc("user", dynFunc(nil, uargs, tUserPtr))
+		if bit(mask, 1) {
+			user.FieldFunc("kind", dynFunc(tUserPtr, []bArg{{"Hint", reflect.PtrTo(tKind)}}, reflect.PtrTo(tKind)))
+		} else {
+			user.FieldFunc("kind", dynFunc(tUserPtr, []bArg{{"Hint", reflect.PtrTo(tKind)}}, tKind))
+		}
+		ft := filterVariant(bit(mask, 3), false)
+		if bit(mask, 8) {
+			q.FieldFunc("search", dynFunc(nil, []bArg{{"Filter", reflect.PtrTo(ft)}}, reflect.SliceOf(reflect.TypeOf(BUser{}))))
+		} else {
+			q.FieldFunc("search", dynFunc(nil, []bArg{{"Filter", reflect.PtrTo(ft)}}, reflect.SliceOf(tUserPtr)))
+		}
+		q.FieldFunc("everyone", dynFunc(nil, nil, reflect.SliceOf(reflect.PtrTo(everyoneTypes[bit(mask, 4)]))))
+		if bit(mask, 5) {
+			user.FieldFunc("nick", dynFunc(tUserPtr, nil, tString))
+		}
+		if bit(mask, 6) {
+			q.FieldFunc("byKind", dynFunc(nil, []bArg{{"Kind", tKind}}, reflect.SliceOf(tUserPtr)))
+		} else {
+			q.FieldFunc("byKind", dynFunc(nil, []bArg{{"Kind", reflect.PtrTo(tKind)}}, reflect.SliceOf(tUserPtr)))
+		}
+		margs := []bArg{{"Id", tInt64}, {"Name", tString}}
+		if bit(mask, 7) {
+			margs = append(margs, bArg{"Reason", reflect.PtrTo(tString)})
+		}
+		mut.FieldFunc("rename", dynFunc(nil, margs, tUserPtr))
+	case "profiles":
+		vals := []string{"A", "B"}
+		if bit(mask, 2) {
+			vals = append(vals, "D")
+		}
+		s.Enum(bKind(0), kindMap(vals...))
+		user := s.Object("User", bProfileUser{}, schemabuilder.FetchObjectFromKeys(func(args struct{ Keys []bUserKey }) []*bProfileUser { return nil }))
+		user.Key("id")
+		if bit(mask, 0) {
+			user.FieldFunc("email", dynFunc(tPUserPtr, nil, reflect.PtrTo(tString)))
+		} else {
+			user.FieldFunc("email", dynFunc(tPUserPtr, nil, tString))
+		}
+		pargs := []bArg{{"First", reflect.PtrTo(tInt64)}}
+		if bit(mask, 1) {
+			pargs = append(pargs, bArg{"Kind", reflect.PtrTo(tKind)})
+		}
+		user.FieldFunc("posts", dynFunc(tPUserPtr, pargs, reflect.SliceOf(tString)))
+		if bit(mask, 4) {
+			user.FieldFunc("score", dynFunc(tPUserPtr, nil, tFloat64))
+		}
+		ft := filterVariant(bit(mask, 3), bit(mask, 6))
+		if bit(mask, 5) {
+			q.FieldFunc("profileCount", dynFunc(nil, []bArg{{"Filter", ft}}, tInt64))
+		} else {
+			q.FieldFunc("profileCount", dynFunc(nil, []bArg{{"Filter", reflect.PtrTo(ft)}}, tInt64))
+		}
+		if bit(mask, 7) {
+			q.FieldFunc("byKind", dynFunc(nil, []bArg{{"Kind", reflect.PtrTo(tKind)}, {"Strict", reflect.PtrTo(tBool)}}, reflect.SliceOf(tPUserPtr)))
+		}
+	case "admins":
+		vals := []string{"B"}
+		if !bit(mask, 1) {
+			vals = append(vals, "A")
+		}
+		s.Enum(bKind(0), kindMap(vals...))
+		admin := s.Object("Admin", BAdmin{}, schemabuilder.FetchObjectFromKeys(func(args struct{ Keys []bAdminKey }) []*BAdmin { return nil }))
+		admin.Key("id")
+		if bit(mask, 0) {
+			admin.FieldFunc("clearance", dynFunc(tAdminPtr, []bArg{{"Kind", reflect.PtrTo(tKind)}}, tString))
+		} else {
+			admin.FieldFunc("clearance", dynFunc(tAdminPtr, nil, tString))
+		}
+		ft := filterVariant(bit(mask, 3), false)
+		aargs := []bArg{}
+		if bit(mask, 2) {
+			aargs = append(aargs, bArg{"Filter", reflect.PtrTo(ft)})
+		}
+		if bit(mask, 4) {
+			q.FieldFunc("admins", dynFunc(nil, aargs, reflect.SliceOf(reflect.TypeOf(BAdmin{}))))
+		} else {
+			q.FieldFunc("admins", dynFunc(nil, aargs, reflect.SliceOf(tAdminPtr)))
+		}
+		if bit(mask, 5) {
+			mut.FieldFunc("promote", dynFunc(nil, []bArg{{"Id", tInt64}, {"Kind", tKind}}, tAdminPtr))
+		}
+	}
+	return s
+}
+
+var bBits = map[string]uint{"users": 10, "profiles": 8, "admins": 6}
+
+type setB struct {
+	templates []string
+	masks     [][]uint
+	feat      map[string]int
+
+	mu    sync.Mutex
+	jsons map[string][]byte
+}
+
+func (b *setB) kind() string             { return "B" }
+func (b *setB) features() map[string]int { return b.feat }
+func (b *setB) counts() []int {
+	out := make([]int, len(b.masks))
+	for i := range b.masks {
+		out[i] = len(b.masks[i])
+	}
+	return out
+}
+
+func (b *setB) jsonFor(s, v int, svcName string) (out []byte, err error) {
+	key := fmt.Sprintf("%d/%d/%s", s, v, svcName)
+	b.mu.Lock()
+	if j, ok := b.jsons[key]; ok {
+		b.mu.Unlock()
+		return j, nil
+	}
+	b.mu.Unlock()
+	defer func() {
+		if p := recover(); p != nil {
+			err = fmt.Errorf("schemabuilder: %v", p)
+		}
+	}()
+	sc := buildB(b.templates[s], svcName, b.masks[s][v])
+	out, err = introspection.ComputeSchemaJSON(*sc)
+	if err == nil {
+		b.mu.Lock()
+		b.jsons[key] = out
+		b.mu.Unlock()
+	}
+	return out, err
+}
+
+func (b *setB) versionSchema(s, v int, svcName string, strictHits *int64, mu *sync.Mutex) (sc *graphql.Schema, err error) {
+	defer func() {
+		if p := recover(); p != nil {
+			err = fmt.Errorf("schemabuilder: %v", p)
+		}
+	}()
+	return buildB(b.templates[s], svcName, b.masks[s][v]).MustBuild(), nil
+}
 
 func newSetB(r *rand.Rand) schemaSet {
-	g := newGenA(r)
-	return &setA{g: g, set: g.versions()}
+	b := &setB{feat: map[string]int{}, jsons: map[string][]byte{}}
+	n := 2
+	if r.Intn(3) == 0 {
+		n = 3
+	}
+	perm := r.Perm(len(bTemplates))
+	for _, p := range perm[:n] {
+		t := bTemplates[p]
+		b.templates = append(b.templates, t)
+		base := uint(r.Intn(1 << bBits[t]))
+		// bias towards few features set so that versions overlap a lot
+		base &= uint(r.Intn(1 << bBits[t]))
+		nv := 1 + r.Intn(3)
+		var ms []uint
+		for v := 0; v < nv; v++ {
+			m := base
+			if v > 0 {
+				for k, flips := 0, 1+r.Intn(3); k < flips; k++ {
+					m ^= 1 << uint(r.Intn(int(bBits[t])))
+				}
+			}
+			ms = append(ms, m)
+		}
+		b.masks = append(b.masks, ms)
+		b.feat["genB:template:"+t]++
+	}
+	return b
+}
+
+func lowerNaming(n naming) naming {
+	out := naming{ver: n.ver}
+	for _, s := range n.svc {
+		out.svc = append(out.svc, strings.ToLower(s))
+	}
+	return out
 }
